@@ -30,6 +30,7 @@ import (
 	"regexp"
 	"strconv"
 	"strings"
+	"unicode/utf8"
 
 	antlr "github.com/antlr/antlr4/runtime/Go/antlr/v4"
 	"github.com/cockroachdb/apd/v2"
@@ -186,6 +187,9 @@ func (_this *cteListener) beginArray(elementSizeBits int) {
 }
 
 func (_this *cteListener) appendCodepoint(codepoint rune) {
+	if !utf8.ValidRune(codepoint) {
+		_this.errorf("%x is not a valid Unicode codepoint", uint32(codepoint))
+	}
 	buff := bytes.NewBuffer(_this.arrayData)
 	if _, err := buff.WriteRune(codepoint); err != nil {
 		_this.errorf("error writing rune %x: %v", codepoint, err)
